@@ -64,6 +64,12 @@ CLAIMED = {
     text='Descriptors covering both flavours, any subset of the 23 section kinds, list lengths on both sides of the 4- and 8-per-line boundaries, table generators with and without enthalpy, 0-13 default incons, None in optional fields, mesh in file / MESH / MESHA+MESHB and extra precision off / on / echoed are turned into t2data objects, written by the real writer, re-read by the real reader and compared field by field with the descriptor projected through the format of each carrying field (exact equality), including the section order; w2 must equal w1 up to trailing blanks and w3, w4 must be byte-identical to w2 for every file written. Independently, the same descriptors are rendered by an own Fortran-style emitter (upper-case E and 1P reals, (A3,I2) names, own record structure, random legal section order) and the reader must return the emitted model. The real files under tests/data run through the same cycle. Every record written is re-sliced in situ by the C02 monitor and the read_/write_ methods reached are counted.',
     note='Trusted: the format tables (column positions) as given; vf/gen/datacase.py, expected() and emit_fortran() in vf/props/c01.py. Domain (DESIGN.md): values fit their fields; extra-precision subsets closed under dependency (ELEME needs ROCKS, CONNE needs ELEME), non-empty, and not covering the mesh when the mesh is external; in echo mode the echoed sections of the main file are excluded from the w1/w2 comparison (legitimate double rounding); short output and history requests only with an in-file mesh.',
     design='DESIGN.md §3 C01'),
+
+ 'C04': dict(
+    technique='runtime reference-geometry monitor: every block and connection of the grid built by the real fromgeo() is re-derived by own plane geometry from node positions, column centres, layer elevations and surfaces',
+    text='For generated rectangular geometries (random spacings/origins, all conventions, atmosphere types, block orders, permeability angles, tilts, rotated/translated, surfaces from just above the bottom layer to above the top layer incl. exactly on layer boundaries, specified column centres) and the shipped irregular geometries with refinements, with and without a random injective block map, the grid returned by the real fromgeo() is compared element by element with an own derivation: block and connection lists against the geometry\'s own name lists (order and orientation), volumes = own shoelace area x height to layer top or surface, total volume = sum of area x depth, horizontal areas = shared-edge length x lower height, distances = perpendicular distances of the column centres from the shared edge, gravity cosines from the centre-to-centre line and the tilt vector, permeability direction from the rotated axes, vertical connections lower-block-first with distances adding up to the centre separation, atmosphere connections with surface-to-centre and atmosphere-connection distances.',
+    note='Trusted: vf/oracle/polygeo.py (shoelace relative to the first vertex, point-line distance). Tolerance 1e-9 relative, widened by 4e-16 x (coordinate product / area) for quantities proportional to a column area (float64 conditioning on map coordinates in the millions; largest conditioning number seen is recorded in the evidence). Permeability direction is not judged within 1e-6 of a tie.',
+    design='DESIGN.md §3 C04'),
 }
 
 def main():
